@@ -1,7 +1,7 @@
 #!/usr/bin/env python3
 """Run a /verif command against a scratch worktree of /repo (a revision and/or a patch applied), with
 its own build directory, then remove both.  Used for mutation-sensitivity experiments only.
-  tools/mut.py [--rev REV] [--patch FILE]... [--sed 'file::old::new']... [--keep] -- ./check C20 --tier quick
+  tools/mut.py [--rev REV] [--patch FILE]... [--sed 'file::old::new']... [--sub FILE OLD NEW]... [--keep] -- ./check C20 --tier quick
 Evidence written by the command goes to a scratch evidence directory, not /verif/evidence."""
 import os, sys, subprocess, tempfile, shutil
 
@@ -11,7 +11,8 @@ def main():
     while a and a[0] != '--':
         if a[0] == '--rev': rev = a[1]; a = a[2:]
         elif a[0] == '--patch': patches.append(os.path.abspath(a[1])); a = a[2:]
-        elif a[0] == '--sed': seds.append(a[1]); a = a[2:]
+        elif a[0] == '--sed': seds.append(a[1].split('::')); a = a[2:]
+        elif a[0] == '--sub': seds.append(a[1:4]); a = a[4:]      # --sub FILE OLD NEW (texts may contain '::')
         elif a[0] == '--keep': keep = True; a = a[1:]
         else: sys.exit('bad arg ' + a[0])
     cmd = a[1:]
@@ -24,7 +25,7 @@ def main():
         for p in patches:
             subprocess.check_call(['git', '-C', wt, 'apply', p])
         for s in seds:
-            f, old, new = s.split('::')
+            f, old, new = s
             path = os.path.join(wt, f)
             txt = open(path).read()
             if old not in txt:
